@@ -185,6 +185,8 @@ def build(cfg, fwrap, space=None, opt=None):
     lb, ub = bounds(cfg)
     if cfg.get('int_bounds'):
         lb, ub = [int(x) for x in lb], [int(x) for x in ub]        # bounds given as Python ints (NumPy makes them int64 arrays)
+    if cfg.get('int_lb'):
+        lb = [int(x) for x in lb]                                  # integer lower bounds, fractional upper bounds
     if space is not None:
         pass
     elif cfg['space'] == 'search':
